@@ -154,8 +154,20 @@ def run(ctx):
                 ("PARENT->duration", "+=", "CHILD->duration", False), ("PARENT->score", "+=", "CHILD->score", False), ("last_ent", "=", "PARENT", False)]
     ctx.check(a2, len(sums) == 2 and all(x is not None and x[0] == want_sts for x in sums), key(f, "loops"), f.where(f.root), "propagation loops are %s; expected both to be %s" % ([x[0] if x else None for x in sums], want_sts))
     ctx.check(a2, len(sums) == 2 and all(x is not None and x[1] == "(VEC.seq + CHILD->parent)" for x in sums), key(f, "parent-of-child"), f.where(f.root), "the parent entry is not looked up through the child's parent index")
-    le = [s for s in paths.stores(f) if s["path"] == "last_ent" and s["rhs"] is not None and paths.is_const(f, s["rhs"], 0)]
-    ctx.check(a2, len(le) == 1 and len(loops) == 2 and f.line(loops[0]) < f.line(le[0]["node"]) < f.line(loops[1]), key(f, "reset-between"), f.where(f.root), "last_ent is not reset between the two levels")
+    # what the second level compares its first parent with: every definition of last_ent that reaches the
+    # second loop from outside it is a null constant (an assignment or a fresh variable)
+    okreset = len(loops) == 2
+    if okreset:
+        inside = set(f.walk(loops[1]))
+        uses = [i for i in inside if f.k(i) == "DeclRef" and f.nodes[i].get("name") == "last_ent" and f.k(f.up(i)) == "Bin"]
+        okreset = bool(uses)
+        for u in uses:
+            for (dn, val) in f.rd.def_values(u):
+                if dn == "param" or dn in inside:
+                    continue
+                if val in (None, "uninit", "param") or not paths.is_const(f, val, 0):
+                    okreset = False
+    ctx.check(a2, okreset, key(f, "reset-between"), f.where(f.root), "last_ent is not reset between the two levels")
     order = [f.canon(f.ch(l)[1], subst=False) for l in loops]
     ctx.check(a2, order == ["(i < al->state.n_ent)", "(i < al->sseq.n_ent)"], key(f, "bottom-up"), f.where(f.root), "levels are not propagated bottom-up (states, then phones): %s" % order)
     # state expansion twins
